@@ -619,6 +619,8 @@ func init() {
 	reg(perr+"WithMessage", wrap)
 	reg(perr+"WithMessagef", wrap)
 
+	// go-pfcp's informational logger (unknown message type etc.): logging stub, empty body
+	reg("github.com/wmnsk/go-pfcp/internal/logger.Logf", func(m *Machine, fr *frame, fn *ssa.Function, args []value) (value, bool) { return nil, true })
 	reg("encoding/hex.Dump", func(m *Machine, fr *frame, fn *ssa.Function, args []value) (value, bool) { return "", true })
 	reg("runtime/debug.Stack", func(m *Machine, fr *frame, fn *ssa.Function, args []value) (value, bool) {
 		return []value(nil), true
